@@ -193,6 +193,13 @@ def check_C15(run):
               ["go wtime 100 btime 100 movestogo 4294967296", "go wtime 4294967296 btime 100", "go movetime 4294967296", "go depth 2147483648", "isready"],
               ["go perft 256", "go split 256", "go nodes 18446744073709551616", "go depth -1", "go nodes -1", "isready"],
               ["setoption name Hash value 18446744073709551616", "setoption name Hash value -1", "isready", "go depth 1"]]
+    # conventional castling strings on Chess960 geometry with the king off the e-file, castling on that wing being legal
+    # (seventh seed round: the alias filter compared only the target square and played a move from an empty e1), both option values
+    for fenx, toks in (("1k5r/pppppppp/8/8/8/8/PPPPPPPP/1K5R w Hh - 0 1", "e1g1"), ("1k5r/pppppppp/8/8/8/8/PPPPPPPP/1K5R b Hh - 0 1", "e8g8"),
+                       ("r5k1/pppppppp/8/8/8/8/PPPPPPPP/R5K1 w Aa - 0 1", "e1c1"), ("r5k1/pppppppp/8/8/8/8/PPPPPPPP/R5K1 b Aa - 0 1", "e8c8"),
+                       ("2k4r/8/8/8/8/8/8/2K4R w Hh - 0 1", "e1g1 e8g8"), ("r4k2/8/8/8/8/8/8/R4K2 w Aa - 0 1", "e1c1 e8c8")):
+        for opt in (None, "true"):
+            corpus.append(([f"setoption name UCI_Chess960 value {opt}"] if opt else []) + ["isready", f"position fen {fenx} moves {toks}", "isready", "print", "go depth 2"])
     for f in G.EXTREME_FENS[:3]:
         corpus.append(["position fen " + f, "go depth 1", "isready", "go nodes 0", "go perft 1", "eval", "print"])
         corpus.append(["isready", "position fen " + f, "go movetime 1", "go depth 2"])
